@@ -150,7 +150,7 @@ fn all_states(shape: &Shape, origin: u8, misses: u32) -> Vec<[u32; 6]> {
     v
 }
 
-fn build(shape: &Shape, passed: Option<u32>, origin: u8, worst: bool, misses: Option<u32>, acc: f64) -> Performance<'static> {
+fn build(shape: &Shape, passed: Option<u32>, origin: u8, worst: bool, misses: Option<u32>, acc: f64, via_osu_map: Option<&rosu_pp::Beatmap>) -> Performance<'static> {
     let mut d = Difficulty::new();
     match origin {
         1 => d = d.lazer(false),
@@ -165,6 +165,23 @@ fn build(shape: &Shape, passed: Option<u32>, origin: u8, worst: bool, misses: Op
     }
     if let Some(k) = passed {
         d = d.passed_objects(k);
+    }
+    // map-backed variant: the osu! calculator gets accuracy (and misses) first and is switched to the shape's mode afterwards
+    if let Some(m) = via_osu_map {
+        let mut p = Performance::new(m.clone()).difficulty(d).accuracy(acc);
+        if let Some(k) = misses {
+            p = p.misses(k);
+        }
+        if worst {
+            p = p.hitresult_priority(HitResultPriority::WorstCase);
+        }
+        let mode = match shape {
+            Shape::Catch { .. } => rosu_pp::model::mode::GameMode::Catch,
+            Shape::Taiko { .. } => rosu_pp::model::mode::GameMode::Taiko,
+            Shape::Mania { .. } => rosu_pp::model::mode::GameMode::Mania,
+            Shape::Osu { .. } => rosu_pp::model::mode::GameMode::Osu,
+        };
+        return p.try_mode(mode).ok().expect("un-converted osu! map");
     }
     let mut p = Performance::new(shape.attrs()).difficulty(d).accuracy(acc);
     if let Some(m) = misses {
@@ -224,16 +241,45 @@ fn main() {
     // (attribute shape, passed_objects): for taiko — where the judgements of a partial play are simply the first k hits — the
     // attributes of the whole map are also used with passed_objects(k), k < max combo; `shape` is then the shape the
     // distributions range over and `full` the attributes handed to the calculator
-    let mut entries: Vec<(Shape, Shape, Option<u32>)> = shapes(&ctx).into_iter().map(|s| (s, s, None)).collect();
+    let mut entries: Vec<(Shape, Shape, Option<u32>, Option<rosu_pp::Beatmap>)> = shapes(&ctx).into_iter().map(|s| (s, s, None, None)).collect();
     for combo in [2u32, 3, 5, 8, 12] {
         let mut ks = vec![0, 1, combo / 2, combo - 1];
         ks.sort_unstable();
         ks.dedup();
         for k in ks {
-            entries.push((Shape::Taiko { combo: k }, Shape::Taiko { combo }, Some(k)));
+            entries.push((Shape::Taiko { combo: k }, Shape::Taiko { combo }, Some(k), None));
         }
     }
-    for (si, (shape, full, passed)) in entries.iter().enumerate() {
+    // real osu! maps whose catch / taiko converts are reached through `accuracy(..).try_mode(..)`: the shape is what the
+    // convert's difficulty attributes say
+    {
+        use vh::gen::{DiffPreset, Kind, MapSpec, Obj, PosK};
+        let o = |kind, gap| Obj { kind, gap, pos: PosK::Far, sound: 0, col: 0 };
+        let lists: Vec<Vec<Obj>> = vec![
+            vec![o(Kind::Circle, 0), o(Kind::Slider2, 300)],
+            vec![o(Kind::SliderLong, 0), o(Kind::Circle, 1500), o(Kind::Circle, 300)],
+            vec![o(Kind::Slider5, 0), o(Kind::Circle, 3000)],
+            vec![o(Kind::Circle, 0), o(Kind::Circle, 200), o(Kind::Slider1, 200), o(Kind::Spinner(600), 400)],
+        ];
+        for objs in lists {
+            for preset in [DiffPreset::D0, DiffPreset::D3] {
+                let map = MapSpec { diff: preset, ..MapSpec::new(0, objs.clone()) }.decode();
+                if let Ok(rosu_pp::any::DifficultyAttributes::Catch(a)) = vh::api::difficulty(&Difficulty::new(), &map, 2) {
+                    let sh = Shape::Catch { fruits: a.n_fruits, droplets: a.n_droplets, tiny: a.n_tiny_droplets };
+                    if a.n_fruits + a.n_droplets <= 12 && a.n_tiny_droplets <= 12 {
+                        entries.push((sh, sh, None, Some(map.clone())));
+                    }
+                }
+                if let Ok(rosu_pp::any::DifficultyAttributes::Taiko(a)) = vh::api::difficulty(&Difficulty::new(), &map, 1) {
+                    let sh = Shape::Taiko { combo: a.max_combo };
+                    if a.max_combo <= 16 {
+                        entries.push((sh, sh, None, Some(map.clone())));
+                    }
+                }
+            }
+        }
+    }
+    for (si, (shape, full, passed, via_map)) in entries.iter().enumerate() {
         let passed = *passed;
         let n = shape.objects();
         let origins: u64 = if shape.has_origins() { 3 } else { 1 };
@@ -241,7 +287,7 @@ fn main() {
         // miss options: unset, 0..=n, n+2
         let miss_opts = u64::from(n) + 3;
         let total = origins * prios * miss_opts;
-        let name = if passed.is_some() { format!("shape{si}/{full:?}/passed_objects={}", n).replace(' ', "") } else { format!("shape{si}/{shape:?}").replace(' ', "") };
+        let name = if via_map.is_some() { format!("shape{si}/{shape:?}/osu-map-then-try_mode").replace(' ', "") } else if passed.is_some() { format!("shape{si}/{full:?}/passed_objects={}", n).replace(' ', "") } else { format!("shape{si}/{shape:?}").replace(' ', "") };
         ctx.universe(&name, total, |idx, l: &mut Local<'_>| {
             let origin = (idx % origins) as u8;
             let r = idx / origins;
@@ -279,7 +325,7 @@ fn main() {
             l.states(states.len() as u64);
             for t in targets {
                 let t = t.clamp(0.0, 100.0);
-                let g = build(full, passed, origin, worst, misses_arg, t).generate_state();
+                let g = build(full, passed, origin, worst, misses_arg, t, via_map.as_ref()).generate_state();
                 let gs = slots(&g);
                 l.checked(1);
                 if g.misses != misses {
